@@ -157,6 +157,11 @@ func applyEdit(kind string, sdls []string, a, b, c int) {
 		sdls[a] = ensureNode(sdls[a]) + "interface Tagged {\n  id: ID!\n}\ntype Stub implements Node & Tagged {\n  id: ID!\n}\n"
 		sdls[a] = addRootField(sdls[a], "Query", "taggedThings: [Tagged]")
 		sdls[b] = ensureNode(sdls[b]) + "type Stub implements Node {\n  id: ID!\n  label: String\n  size: Int\n}\n"
+	case "neutralCopyWithInterface":
+		// a value type copied word for word, one service also files it under an interface of its own
+		sdls[a] += "type Fee {\n  amount: Int\n  currency: String\n}\n"
+		sdls[b] += "interface Charged {\n  amount: Int\n}\ntype Fee implements Charged {\n  amount: Int\n  currency: String\n}\n"
+		sdls[b] = addRootField(sdls[b], "Query", "lastCharge: Charged")
 	case "neutralUnderscoreRootFields":
 		// a single leading underscore is an ordinary name (only two are reserved): the entry points of other federation schemes
 		sdls[a] = addRootField(addRootField(sdls[a], "Query", "_service: String"), "Query", "_entities(ids: [ID!]!): [String]")
@@ -170,7 +175,7 @@ func applyEdit(kind string, sdls []string, a, b, c int) {
 var conflictKinds = []string{"dupQueryField", "dupMutationField", "dupSubscriptionField", "kindObjectEnum", "kindScalarObject", "kindInputObject",
 	"kindInterfaceUnion", "nodeOneSide", "nodeFieldTwice", "nodeFieldTwicePartial", "partialObject", "partialObjectSubset", "partialInput", "partialInputSubset", "partialInterface", "partialInterfaceSubset", "idFieldType", "idInputFieldType", "idFieldArgs",
 	"fieldType", "fieldNullability", "fieldListWrapper", "fieldListElemNullability", "argListWrapper", "inputFieldListWrapper", "fieldArgs", "fieldArgType", "inputFieldType", "inputFieldDefault", "argDefault", "unionMembers", "unionMembersDisjoint"}
-var neutralKinds = []string{"neutralThreeWay", "neutralIdentical", "neutralDisjoint", "neutralEnumExtend", "neutralStubInterface", "neutralUnderscoreRootFields"}
+var neutralKinds = []string{"neutralThreeWay", "neutralIdentical", "neutralDisjoint", "neutralEnumExtend", "neutralStubInterface", "neutralCopyWithInterface", "neutralUnderscoreRootFields"}
 
 // conflictGate maps a conflict kind to the feature class used by known-finding gates.
 func conflictGate(kind string) string { return "merge." + kind }
